@@ -14,6 +14,6 @@ echo "== baseline tests with the change"
 rm -rf $WT/allmydata.test.* $WT/eliot.log 2>/dev/null
 for P in $ID "$@"; do
   echo "== ./check $P $TIER against the change"
-  VERIF_REPO_SRC=$WT/src VERIF_WORKERS=${VERIF_WORKERS:-10} timeout 3000 ./check $P $TIER > $SD/check-$P.log 2>&1; C=$?
+  VERIF_OUT=$SD/out VERIF_REPO_SRC=$WT/src VERIF_WORKERS=${VERIF_WORKERS:-10} timeout 3000 ./check $P $TIER > $SD/check-$P.log 2>&1; C=$?
   echo "check exit $C"; grep -h "^VIOLATION\|sig=" $SD/check-$P.log | head -6; tail -1 $SD/check-$P.log | cut -c1-300
 done
